@@ -426,6 +426,18 @@ impl<'a> Ctx<'a> {
         for tj in j.tests.iter_mut() {
             tj.pid = Some(pid);
         }
+        // a command that closes the ONE shell's stdout or stderr takes scrut's own divider lines
+        // with it: scrut cannot tell the test cases apart any more and gives up (exit 1)
+        if list.iter().any(|(_, t)| self.prog(&t.nonce).closes_streams) {
+            j.run_fail = true;
+            j.may_fail = true;
+            j.stop = Some(Stop::NoCode(0));
+            for tj in j.tests.iter_mut() {
+                tj.allowed = Allowed::Anything;
+                tj.why = "a command closed the script's own output streams".into();
+            }
+            return j;
+        }
         let comm = p.comm_result().unwrap_or("none").to_string();
         let waited_err = p.wait.as_ref().map(|w| w.1.starts_with("err")).unwrap_or(false);
         let skip_code = sc.effective(main, list[0].0, list[0].1).skip_code;
@@ -608,14 +620,16 @@ impl<'a> Ctx<'a> {
                 .and_then(|c| c.doc_path.get(&self.sc.docs[d.doc].path))
                 .map(|p| self.obs.stderr.contains(&format!("failing in {:?}", p)))
                 .unwrap_or(false);
-            if j.refused_without_cause && named && self.sc.tier == Tier::Cli && self.obs.sim_abort.is_none() && self.obs.exit_status == Some(1) {
+            // ... or it ran every command to its end and then gave up on what came back
+            let gave_up_after = !j.run_fail && !j.faulted && j.stop.is_none() && j.tests.iter().all(|t| t.pid.is_some());
+            if (j.refused_without_cause || gave_up_after) && named && self.sc.tier == Tier::Cli && self.obs.sim_abort.is_none() && self.obs.exit_status == Some(1) {
                 for prop in ["C13", "C20"] {
                     out.push(v(
                         prop,
                         "execution-error-without-cause",
                         j.tests.first().map(|t| t.nonce.as_str()),
                         format!(
-                            "document {}: scrut gave up before running anything although the document is well-formed and nothing failed: {}",
+                            "document {}: scrut gave up although the document is well-formed, every command that ran completed and nothing failed: {}",
                             self.sc.docs[d.doc].path,
                             self.obs.stderr.lines().find(|l| l.contains("Error")).unwrap_or("").chars().take(300).collect::<String>()
                         ),
